@@ -339,8 +339,13 @@ func strLen(L *LState) int {
 }
 
 func strLower(L *LState) int {
-	str := L.CheckString(1)
-	L.Push(LString(strings.ToLower(str)))
+	bts := []byte(L.CheckString(1))
+	for i, c := range bts {
+		if 'A' <= c && c <= 'Z' {
+			bts[i] = c + ('a' - 'A')
+		}
+	}
+	L.Push(LString(string(bts)))
 	return 1
 }
 
@@ -419,8 +424,13 @@ func strSub(L *LState) int {
 }
 
 func strUpper(L *LState) int {
-	str := L.CheckString(1)
-	L.Push(LString(strings.ToUpper(str)))
+	bts := []byte(L.CheckString(1))
+	for i, c := range bts {
+		if 'a' <= c && c <= 'z' {
+			bts[i] = c - ('a' - 'A')
+		}
+	}
+	L.Push(LString(string(bts)))
 	return 1
 }
 
